@@ -125,8 +125,22 @@ def condition_rules(chk, P):
     chk.require(not extra, "WHO", "WHO:SignalError-sites", "SignalError is constructed at %s" % {k.split("::")[-1]: v for k, v in counts.items()}, "new rejection reason: SignalError constructed at %s (expected at most %s)" % ({k: v for k, v in extra.items()}, {k.split("::")[-1]: v for k, v in want.items()}))
 
 
-def scoping_rules(chk, P):
-    """Parse-time scoping decides which identifiers count as output reads."""
+def scoping_rules(chk, P, only=None):
+    """Parse-time scoping decides which identifiers count as output reads.
+    `only`: restrict to obligations whose key contains one of these substrings."""
+    if only is not None:
+        class _Filtered:
+            def __init__(self, inner):
+                self._i = inner
+            def __getattr__(self, n):
+                return getattr(self._i, n)
+            def require(self, cond, rule, key, okd, bad, site=""):
+                if any(o in key for o in only):
+                    return self._i.require(cond, rule, key, okd, bad, site)
+                return cond
+            def floor(self, *a, **k):
+                return None
+        chk = _Filtered(chk)
     b = P.body(PSB)
     if b is None:
         chk.fail("ANCHOR", "anchor:parse_stmt_block", "parse_stmt_block not found")
